@@ -16,10 +16,10 @@ from ..translate import parse, find_func, module_consts
 NAME = "ExprsBins"
 
 SET_SPECS = [
-    ("cnvlib/antitarget.py", "drop_noncanonical_contigs", "src_chroms_to_skip", "local:chroms_to_skip",
+    ("cnvlib/antitarget.py", "drop_noncanonical_contigs", "src_chroms_to_skip", "isin_arg",
      {"params": [("access_chroms", COLL), ("target_chroms", COLL)], "preds": ["is_canonical_contig_name"],
       "opaque": ["access_chroms", "target_chroms"]},
-     "antitarget.drop_noncanonical_contigs: the value of `chroms_to_skip` (access_chroms, target_chroms = the "
+     "antitarget.drop_noncanonical_contigs: the names handed to `accessible.chromosome.isin(...)` (access_chroms, target_chroms = the "
      "chromosome names of the two tables; target_chroms is not empty here: compare_chrom_names has passed)"),
     ("cnvlib/antitarget.py", "compare_chrom_names", "src_chrom_names_clash", "raise_cond",
      {"params": [("a_chroms", COLL), ("b_chroms", COLL)], "opaque": ["a_chroms", "b_chroms"]},
